@@ -23,6 +23,14 @@ CLAIMS = {
    text="Lean 4 model of yuv420_to_rgba (row loop, whole 4-pixel groups, remainder path with its x%4, (x%4)/2, i%16 indexing), tied to the code by correspondence on every width x height of a dense range and checked against the pointwise statement pixel(x,y) = BT.601(luma(x,y), chroma(x/2,y/2)); theorem: an empty picture of any width yields an empty output without panic.",
    note="PARTIAL: the pointwise layout statement for every width/height (pixel_at, length, no_panic) is so far carried by the correspondence runs and the executable pointwise spec, not by a theorem; proved: empty_ok. Axioms: propext, Quot.sound at most.",
    design="DESIGN.md §4 C08", technique="Lean 4 model + theorem for the empty case; model/code correspondence over all sizes"),
+ "C11": dict(
+   text="Lean 4 theorems: the model's dequantisation equals sign(L)*(Q*(2|L|+1) - [Q even]) saturated to -2048..2047 for every quantizer and level; INTRADC codes 0/128 rejected, 255 -> 1024, others -> 8*code; the quantizer update is clamp(1,31,Q+DQUANT) with no i8 overflow; the regenerated de-zig-zag table equals the classical scan; two's-complement round trip of the 7/8/11-bit escape levels. Model tied to the code by exhaustive correspondence through the inverse_rle hook (31 quantizers x 2046 levels x positions) and through 16x16 pictures for all 31 x 4 quantizer updates.",
+   note="Axioms: propext, Classical.choice, Quot.sound. PARTIAL: that the k-th coded coefficient lands at zig-zag position k (run-length expansion and the lossless Zero/Dc/Horiz/Vert/Full shape classification) is covered by correspondence (multi-event blocks) and by the executable spec for one-coefficient blocks, not yet by a general theorem.",
+   design="DESIGN.md §4 C11", technique="Lean 4 proof (omega) + exhaustive hook-level correspondence"),
+ "C12": dict(
+   text="Lean 4 theorems: for all predictors and differentials in -32..31 half samples the reconstructed component is (p+d+32) mod 64 - 32; for every sum of four components the chroma component is sign(s)*(2*floor(|s|/16)+tab16(|s| mod 16)); median_of is the median; the half-sample split is (floor(v/2), v odd); predict_candidate equals the two-dimensional neighbour rule at every position of every picture width >= 1 for all four block indices (no lookup fails); the regenerated MVD tree decodes all 64 Table-14 codewords (decide +kernel) and is prefix-free; range constants regenerated. Exhaustive correspondence through the mv_decode / predict_candidate hooks.",
+   note="Axioms: propext, Classical.choice, Quot.sound. That intra / not-coded neighbours contribute zero candidates is an invariant of the macroblock loop (the decoder stores zero vectors for them), exercised by correspondence on P pictures (C03 generator), not proved here.",
+   design="DESIGN.md §4 C12", technique="Lean 4 proof (omega, case analysis, decide +kernel over the regenerated table) + exhaustive correspondence"),
 }
 
 PENDING = {}
